@@ -1,13 +1,15 @@
 """C01 C02 C04 C19: specification vectors replayed into the Python codec."""
 import json
 
-from . import wire, pywire, shadows
+from . import wire, pywire, cppwire, pytrace, shadows
 from .common import Report, scratch_dir
 
 
-def _run(pid, tier, checks, replay, assumptions, rule):
+def _run(pid, tier, checks, replay, assumptions, rule, extra_leg=None):
     rep = Report(pid, tier)
     rep.assumptions = assumptions
+    if extra_leg:
+        extra_leg(rep, tier, pid)
     vs = wire.generate(tier)
     for st in vs.stats:
         rep.add_tlc(st)
@@ -43,8 +45,49 @@ RULE = ("TLC enumerates every schema over the curated inner environment up to th
         "or more than one structural choice; distinct = distinct schemas")
 
 
+def _trace_leg(rep, tier, pid):
+    """code -> spec: recorded Python encodings of random schemas/values are
+    validated by TLC against the specification (spec/WireGiven.tla TSpec)."""
+    from concurrent.futures import ProcessPoolExecutor
+    from .common import NCPU, seed
+    n_workers = NCPU
+    per = (8, 4) if tier == "quick" else (120, 8)
+    jobs = [(seed() * 1000 + w, per[0], per[1], {"scratch": scratch_dir("tr")}) for w in range(n_workers)]
+    items, meta = [], []
+    with ProcessPoolExecutor(max_workers=NCPU) as ex:
+        for r in ex.map(pytrace.record_worker, *zip(*jobs)):
+            items += r["items"]
+            meta += r["meta"]
+            for f in r["fails"]:
+                rep.violation(f, shadows.match(pid, f))
+    verdicts, illegal, stats = wire.validate_traces(items)
+    rep.add_tlc(stats)
+    if illegal:
+        raise wire.MachineryError("generator produced %d environments the specification calls illegal" % len(illegal))
+    n_ok = 0
+    for it, m, v in zip(items, meta, verdicts):
+        if v is None:
+            rep.violation({"check": "enc", "what": "recorded walk is not a behaviour of the specification",
+                           "schema": m["schema"], "walk": it["walk"], "defs": it["env"]})
+        elif v["dL"] or v["dB"]:
+            rep.violation({"check": "enc", "what": "trace rejected: recorded %s image differs from the specification "
+                           "at offset %d (little %s / big %s)" % ("little-endian" if v["dL"] else "big-endian",
+                                                                  (v["dL"] or v["dB"]) - 1, bytes(it["obsL"]).hex(),
+                                                                  bytes(it["obsB"]).hex()),
+                           "schema": m["schema"], "walk": it["walk"], "defs": it["env"]})
+        else:
+            n_ok += 1
+    rep.validated(len(items))
+    rep.count(len(items))
+    rep.cov["recorded_traces"] = len(items)
+    rep.cov["recorded_traces_accepted"] = n_ok
+    if items:
+        rep.sample({"recorded_trace": {"schema": meta[0]["schema"], "walk": [[e["e"], e["n"], e["v"]] for e in items[0]["walk"]],
+                                       "little": bytes(items[0]["obsL"]).hex()}}, limit=4)
+
+
 def c01(tier, replay):
-    return _run("C01", tier, ["enc"], replay, ASSUME_COMMON, RULE)
+    return _run("C01", tier, ["enc"], replay, ASSUME_COMMON, RULE, extra_leg=_trace_leg)
 
 
 def c02(tier, replay):
@@ -96,3 +139,66 @@ def c06(tier, replay):
     rep.cov["schemas"] = len(groups)
     rep.cov["exhaustive"] = True
     return rep.finish()
+
+
+# ---------------------------------------------------------------------------
+# C++ full codec legs
+# ---------------------------------------------------------------------------
+def _select_cpp(groups, tier, cap_quick=600, cap_thorough=12000):
+    """C++ compile time bounds the number of schemas (about 10 ms each)."""
+    import random
+    cap = cap_quick if tier == "quick" else cap_thorough
+    if len(groups) <= cap:
+        return groups
+    rnd = random.Random(wire.seed())
+    return rnd.sample(groups, cap)
+
+
+def _run_cpp(pid, tier, checks, assumptions, rule, vs=None, nbatch=12, shadow_pid=None):
+    rep = Report(pid, tier)
+    rep.assumptions = assumptions
+    vs = vs or wire.generate(tier, light=True)
+    for st in vs.stats:
+        rep.add_tlc(st)
+    groups = _select_cpp(wire.group_vectors(vs), tier)
+    results = wire.run_batches(cppwire.worker, groups, vs, {"checks": checks, "scratch": scratch_dir("cpp")},
+                               nbatch=nbatch, timeout=3000)
+    outcomes = {}
+    for r in results:
+        if "crash" in r:
+            rep.violation({"what": "worker crashed or hung: %s" % r["crash"], "groups": r["groups"]})
+            continue
+        rep.count(r["n_cases"])
+        rep.validated(r["n_cases"])
+        for s in r["samples"]:
+            rep.sample(s)
+        for gid in r["nontrivial"]:
+            rep.nontrivial(gid)
+        for k, n in r.get("outcomes", {}).items():
+            outcomes[k] = outcomes.get(k, 0) + n
+        for f in r["fails"]:
+            rep.violation(f, shadows.match(pid, f))
+        rep.cov["skipped_not_cpp_full"] = rep.cov.get("skipped_not_cpp_full", 0) + r["skipped_groups"]
+        rep.cov["cpu_s_build"] = round(rep.cov.get("cpu_s_build", 0) + r.get("t_build", 0), 1)
+        rep.cov["cpu_s_run"] = round(rep.cov.get("cpu_s_run", 0) + r.get("t_run", 0), 1)
+    if outcomes:
+        rep.cov["outcomes (fault/cpp/spec-decoder)"] = outcomes
+    rep.cov["rule"] = rule
+    rep.cov["schemas"] = len(groups)
+    rep.cov["exhaustive"] = len(groups) == len(wire.group_vectors(vs))
+    return rep.finish()
+
+
+ASSUME_CPP = ASSUME_COMMON + [
+    "generated C++ built with clang++-14 -std=c++11 -O1 -fsanitize=address,undefined against /repo/prophy_cpp/include; "
+    "x86-64 little-endian host; decode input and encode output live in exact-size malloc blocks (8-aligned)",
+    "schemas with several arrays bound to one sizer are skipped (the generator's documented refusal)"]
+RULE_CPP = RULE + "; evaluations = driver cases (vector x byte order x operation)"
+
+
+def c03(tier, replay):
+    return _run_cpp("C03", tier, ["compat"], ASSUME_CPP, RULE_CPP)
+
+
+def c05(tier, replay):
+    return _run_cpp("C05", tier, ["gbs"], ASSUME_CPP, RULE_CPP)
